@@ -36,6 +36,60 @@ def inject(at_index, status):
         sw.SolverWrapper.optimize, sw.SolverWrapper.get_model_status = real_opt, real_status
 
 
+@contextlib.contextmanager
+def inject_alarm(at_index):
+    """every SolverWrapper is created with the documented extra timeout switched on (use_also_custom_timeout, time_limit 600 s); during the
+    `at_index`-th optimize() (0-based, counted globally) the SIGALRM of that extra timeout is delivered right after HiGHS returns, while the
+    wrapper is still inside its timed section - exactly what a solver that overruns its limit produces.  state['status'] is what THAT wrapper reports."""
+    import os
+    import signal
+    import flowpaths.utils.solverwrapper as sw
+    state = dict(n=0, hit=None, status=None)
+    real_init, real_opt = sw.SolverWrapper.__init__, sw.SolverWrapper.optimize
+
+    def init(self, *a, **kw):
+        kw = dict(kw, use_also_custom_timeout=True)
+        if kw.get("time_limit", float("inf")) == float("inf"):
+            kw["time_limit"] = 600
+        real_init(self, *a, **kw)
+
+    def optimize(self):
+        idx = state["n"]
+        state["n"] += 1
+        if idx == at_index and getattr(self, "external_solver", "highs") == "highs":
+            run = self.solver.optimize
+
+            def late():
+                r = run()
+                os.kill(os.getpid(), signal.SIGALRM)       # the alarm of the extra timeout fires before the timed section is left
+                for _ in range(3):
+                    pass                                    # give the interpreter a bytecode boundary to run the handler
+                return r
+            self.solver.optimize = late
+            try:
+                real_opt(self)
+            finally:
+                try:
+                    del self.solver.optimize
+                except AttributeError:
+                    self.solver.optimize = run
+            state["hit"] = idx
+            state["status"] = self.get_model_status()
+        else:
+            real_opt(self)
+    # whatever handler the process had is replaced by a no-op for the duration and afterwards (never SIG_DFL: an alarm delivered
+    # to a process without a handler would terminate the checker's worker)
+    noop = lambda signum, frame: None
+    signal.signal(signal.SIGALRM, noop)
+    sw.SolverWrapper.__init__, sw.SolverWrapper.optimize = init, optimize
+    try:
+        yield state
+    finally:
+        sw.SolverWrapper.__init__, sw.SolverWrapper.optimize = real_init, real_opt
+        signal.alarm(0)
+        signal.signal(signal.SIGALRM, noop)
+
+
 def _g(edges, attr="flow"):
     G = nx.DiGraph()
     G.graph["id"] = "fault"
@@ -101,7 +155,7 @@ def _objective(model, key):
 
 def run(tier="quick", only=None):
     evaluations, nontrivial, failures, samples, undecided = 0, 0, [], [], []
-    calls = {}
+    calls, base_of = {}, {}
     statuses = STATUSES if tier == "thorough" else STATUSES[:2] + ("kUnknown",)
     for name, mk, key in instances():
         if only and only not in name:
@@ -113,6 +167,7 @@ def run(tier="quick", only=None):
                 n_calls = st0["n"]
             base = (_size(m0, key), _objective(m0, key)) if ok0 else None
             calls[name] = n_calls
+            base_of[name] = base
         except SystemExit as e:
             failures.append(dict(fingerprint="%s terminates the process" % name.split("/")[0],
                                  what="%s: solve() called exit(%s) in the fault-free run" % (name, e), replay=dict(instance=name, inject_at=None)))
@@ -167,6 +222,52 @@ def run(tier="quick", only=None):
                     if bad:
                         failures.append(dict(fingerprint="%s unsolved model returns data" % name.split("/")[0],
                                              what="%s: solver call #%d reported %s, solve() False but %s" % (name, t, status, "; ".join(bad)), replay=case))
+                    # the caller tries again on the same object, this time without any fault: the answer must be the fault-free one
+                    # (state kept from the inconclusive attempt - a raised lower bound, a stale solution - must not leak into it)
+                    if status == statuses[0] and not name.startswith(("NumPathsOptimization", "MinErrorFlow", "MinSetCover")):
+                        try:
+                            ok2 = m.solve()
+                            got2 = (_size(m, key), _objective(m, key)) if ok2 else None
+                        except BaseException as e:
+                            failures.append(dict(fingerprint="%s raised %s when solve() was called again after an inconclusive attempt" % (name.split("/")[0], type(e).__name__),
+                                                 what="%s: first attempt had solver call #%d report %s; second solve() raised %s(%s)" % (name, t, status, type(e).__name__, e), replay=case))
+                            continue
+                        if ok2 and got2 != base:
+                            failures.append(dict(fingerprint="%s: a second solve() after an inconclusive attempt returns a different answer than a fresh model" % name.split("/")[0],
+                                                 what="%s: first attempt had solver call #%d report %s (solve() False); second solve() on the same object gives %s, a fresh model %s" % (name, t, status, got2, base),
+                                                 replay=case))
+    # ---- the wrapper's own extra timeout (SIGALRM) fires during the t-th solver run: that run must be reported as timed out by ITS wrapper
+    #      (whatever other wrappers exist or existed in the process), and the search must not return an answer built on it
+    alarm_instances = [x for x in instances() if x[0].split("/")[0] in ("MinFlowDecomp", "MinPathCover", "MinFlowDecompCycles", "MinGenSet", "kFlowDecomp")]
+    if tier != "thorough":
+        alarm_instances = alarm_instances[:1] + [x for x in alarm_instances[1:] if x[0] in ("MinPathCover/dag2", "MinFlowDecompCycles/cyc", "MinGenSet/[3,5,8,13]", "kFlowDecomp/dag,k=3")]
+    for name, mk, key in alarm_instances:
+        if only and only not in name:
+            continue
+        if name not in calls:
+            continue
+        for t in range(calls[name]):
+            evaluations += 1
+            case = dict(instance=name, alarm_during_call=t, solver_calls=calls[name])
+            try:
+                with inject_alarm(t) as st:
+                    m = mk()
+                    ok = m.solve()
+            except BaseException as e:
+                failures.append(dict(fingerprint="%s raised %s when the extra timeout fired" % (name.split("/")[0], type(e).__name__),
+                                     what="%s: solve() raised %s(%s) when the alarm fired during solver call #%d" % (name, type(e).__name__, e, t), replay=case))
+                continue
+            if st["hit"] is None:
+                continue                       # fewer solver calls with the extra timeout on (nothing injected)
+            nontrivial += 1
+            if st["status"] != "kTimeLimit":
+                failures.append(dict(fingerprint="the extra timeout fired during a solver run but that run's wrapper does not report kTimeLimit",
+                                     what="%s: alarm during solver call #%d; the wrapper of that call reports %s (solve() = %s)" % (name, t, st["status"], ok), replay=case))
+            elif ok and not name.startswith("NumPathsOptimization"):
+                got = (_size(m, key), _objective(m, key))
+                if got != base_of.get(name):
+                    failures.append(dict(fingerprint="%s non-minimal answer after a run cut short by the extra timeout" % name.split("/")[0],
+                                         what="%s: alarm during solver call #%d, solve() still returned True with %s instead of %s" % (name, t, got, base_of.get(name)), replay=case))
     return dict(engine="rc.fault_enumeration", evaluations=evaluations, distinct_nontrivial=nontrivial, failures=failures, samples=samples, undecided=undecided,
                 rule="every (instance, solver invocation index, injected status) triple; non-trivial = the injected run completed without crashing the harness",
                 solver_calls_per_instance=calls, bounds="18 small instances x all invocation indexes x %d statuses" % len(statuses), exhaustive=True,
